@@ -97,6 +97,12 @@ func prop(cl claim) engine.AnyProp {
 			w := ind.Idle(cfg)
 			n := rapid.IntRange(0, 3*w+40).Draw(t, "n")
 			class := rapid.SampledFrom([]string{"walk", "flat", "monotone", "sawtooth", "ties", "zeros", "spikes", "decimal", "flatbars"}).Draw(t, "class")
+			if vl := gen.VeryLong(t); vl > 0 {
+				n = vl
+			}
+			if engine.OncePerRun("C15-very-long/" + ind.Name) {
+				n = 1<<16 + 24 // every claimed indicator once per run
+			}
 			b := gen.GenBarsOf(t, n, class)
 			if rapid.IntRange(0, 7).Draw(t, "narrow_bars") == 3 {
 				b = gen.Narrow(t, b)
